@@ -171,6 +171,32 @@ pub fn run(o: &Opts) -> i32 {
                 }
             }
         }
+        // more piece ends at one level than a block hash can hold (70 > 63): the context of the
+        // largest block size (which has no successor) and the one below it, back to back
+        for lv in [30usize, 29] {
+            let mut d: Vec<u8> = Vec::with_capacity(70 * 7 + 1);
+            for j in 0..70 {
+                d.extend_from_slice(&wh[lv][j % wh[lv].len()]);
+            }
+            d.push(b'z');
+            check_input(l, &d, "hostile-saturating");
+        }
+        // every trigger word alone (final block size 3): includes, per level, the largest and the
+        // smallest rolling hash value that ends a piece there
+        for (lv, ws) in wh.iter().enumerate() {
+            if crate::work::bytes::tiny() && lv > 2 && lv < 29 {
+                continue; // interpreter budget
+            }
+            for w in ws {
+                let mut d: Vec<u8> = w.to_vec();
+                d.push(b'a' + (lv as u8 % 26));
+                check_input(l, &d, "hostile-single-word");
+                let mut d2: Vec<u8> = b"ab".to_vec();
+                d2.extend_from_slice(w);
+                d2.extend_from_slice(w);
+                check_input(l, &d2, "hostile-single-word");
+            }
+        }
     }));
     streams.push(Stream::new("w1-random", o.n(1500, 40_000), move |_i, rng: &mut Rng, l: &mut Local| {
         let d = bytes::gen_w1(rng, w1_max);
